@@ -131,6 +131,7 @@ class Engine:
         self._none = {}          # sort name -> none const
         self._pytypes = {}
         self.binop_hooks = []
+        self.attr_hooks = []
         self.loop_specs = {}     # (func qualname, ordinal) -> LoopSpec
         self.out_of_subset = []
 
